@@ -1,5 +1,6 @@
 import RV.C12.Lemmas
 import RV.C12.PLemmas
+import RV.C12.N3Lemmas
 /-
   C12 — "Parsing only adds, and blank nodes of separate documents never merge."
 
@@ -462,6 +463,63 @@ theorem jsonld_drops_bnode_predicate :
 theorem skolemize_example :
     (parseWith .nt ⟨true, false, false⟩ ⟨[], 1⟩ [] (.iri 0) docB0).1.quads = [(.skol 0, .iri 1, .iri 2, .iri 0)] := by
   decide
+
+
+/-! ### Round g — Notation3 / Turtle / TriG: `_:x` scoping with formulae (`Parsers.n3Run`) -/
+
+/-- The N3-family parser as coded — a *stack* of `_anonymousNodes` dicts, pushed and emptied at `{`, popped at `}`,
+    plus the nodes the recursive descent holds (`[]`, `( )`, paths, formula nodes) — computes exactly what the
+    generic one-dict parser computes on the scope-resolved document, in which every `_:x` written inside a
+    formula is qualified with that formula occurrence (`resolve`). -/
+def Statement_n3_formula_scopes : Prop :=
+  ∀ (d : DS) (into : T) (evs : List Ev), EvOK evs →
+    parseN3 d into evs = parseInto d .remap into (resolve RS.init evs)
+
+/-- … hence: ONE injective renaming of the *scoped* labels to nodes that are not in the old content.  `_:x` in a
+    formula, `_:x` outside it and `_:x` in another formula are three nodes; `_:x` before and after a formula is one
+    node; inside one formula it is one node. -/
+def Statement_n3_scoped_labels_one_injective_renaming : Prop :=
+  ∀ (d : DS) (into : T) (evs : List Ev), EvOK evs → WF d → IntoOK d into →
+    IsMerge d into (resolve RS.init evs) (parseN3 d into evs).quads
+
+/-- without formulae the stack machine is the N3-family parser of `parseWith` (Turtle, TriG — any number of graph
+    blocks — and N3 documents without `{ }`) -/
+def Statement_n3_without_formulae : Prop :=
+  ∀ (p : Parser) (c : CallOpts) (d : DS) (into : T) (doc : Doc), (p = .turtle ∨ p = .n3 ∨ p = .trig) →
+    (∀ q ∈ doc, QOK q) → parseN3 d into (doc.map Ev.stmt) = (parseWith p c d [] into doc).1
+
+theorem n3_formula_scopes : Statement_n3_formula_scopes :=
+  fun d into evs h => parseN3_eq d into evs h
+
+theorem n3_scoped_labels_one_injective_renaming : Statement_n3_scoped_labels_one_injective_renaming := by
+  intro d into evs h hw hi
+  rw [parseN3_eq d into evs h]
+  exact parse_is_merge .remap d into _ rfl hw hi
+
+theorem n3_without_formulae : Statement_n3_without_formulae := by
+  intro p c d into doc hp hq
+  have hok : EvOK (doc.map Ev.stmt) := by
+    intro q hm
+    obtain ⟨q', hq', e⟩ := List.mem_map.mp hm
+    injection e with e
+    subst e
+    exact hq q' hq'
+  rw [parseN3_eq d into _ hok, resolve_init_stmts, parseWith_eq]
+  rcases hp with rfl | rfl | rfl <;>
+    simp only [parseO, loptsOf, emitO_plain, parseInto, parseDoc]
+
+/-- `}` gives back exactly the dict that was there at `{` -/
+theorem n3_close_restores (s : N3S) : n3Close (n3Open s) = s := rfl
+
+/-- `_:x <1> <2> .  { _:x <1> <2> } <3> <2> .  _:x <4> <2> .` — the inner `_:x` is its own node (2), the outer one
+    is the same node (1) before and after the formula, the formula's node is 3 -/
+theorem n3_scopes_example :
+    (parseN3 ⟨[], 1⟩ (.iri 0)
+      [.stmt (.lab (.named 0), .iri 1, .iri 2, none), .opn,
+       .stmt (.lab (.named 0), .iri 1, .iri 2, some (.lab (.anon 0))), .cls,
+       .stmt (.lab (.anon 0), .iri 3, .iri 2, none), .stmt (.lab (.named 0), .iri 4, .iri 2, none)]).quads
+      = [(.bn 1, .iri 1, .iri 2, .iri 0), (.bn 2, .iri 1, .iri 2, .bn 3), (.bn 3, .iri 3, .iri 2, .iri 0),
+         (.bn 1, .iri 4, .iri 2, .iri 0)] := by decide
 
 /-! ### Non-vacuity -/
 
